@@ -55,21 +55,23 @@ PROPS = {
     "C16": {
         "shrink": True,
         "manifest": {
-            "text": "Lean 4 theorems: probe_find_all (for every hash function and collision pattern, the reader's probe loop over "
-                    "a table built by the writer's linear probing returns exactly the record positions written with that hash, in "
-                    "insertion order, and terminates), buildTable_has_free, makeParse_dumpText (Dump text parses back to exactly "
-                    "the pairs). The byte-exact Lean model of writer/reader/dump is tied to the code on every run: file image "
-                    "byte-identical (FNV digest), FindNext iteration for present/absent keys, Dump text, Dump->Make identity, on "
-                    "databases of 0..20000 (thorough 65000) pairs with crafted bucket and full-hash collisions and record sizes "
-                    "around I/O buffer boundaries.",
+            "text": "Lean 4 theorems, byte level end to end: find_written / find_written_hashfn (for every entry list, every "
+                    "hash function incl. total collisions, the reader's FindNext loop on the bytes produced by the writer returns "
+                    "exactly the values stored under the key, in insertion order), find_absent (nothing else), find_in_order, "
+                    "find_no_leak (colliding keys do not leak), findNext_iterates (iteration ends by EOF, never by panic), "
+                    "find_first, writeFile_size; the table core probe_find_all / buildTable_has_free; makeParse_dumpText (Dump text "
+                    "parses back to exactly the pairs). The byte-exact Lean model of writer/reader/dump is tied to the code on every "
+                    "run: file image byte-identical (FNV digest), FindNext iteration for present/absent keys, Dump text, Dump->Make "
+                    "identity, on databases of 0..20000 (thorough 65000) pairs with crafted bucket and full-hash collisions and "
+                    "record sizes around I/O buffer boundaries.",
             "note": "Trusted: Lean kernel + standard axioms; spooky hash is external (each key's real hash is passed to the model; "
-                    "theorems hold for every hash function). Partial: the theorems are about the structured table layer and the "
-                    "text format; the byte-level layout (header offsets, uint32 positions) is validated by the correspondence "
-                    "(byte-identical files), not yet proved; mmap is trusted.",
+                    "theorems hold for every hash function); mmap is trusted. Forced hypotheses: file size, hashes and key length "
+                    "below 2^32 (the real writer does not check the size bound: positions wrap silently beyond 4 GiB - an "
+                    "observation, such files are not generated). Dump of a written file is covered by the correspondence only.",
         },
         "trusted": COMMON_TRUSTED + [
             "spooky.Hash32 external: real hashes passed to the model, theorems quantify over all hash functions",
-            "byte-level file layout of the model validated by byte-identical comparison with real files, not proved",
+            "mmap / file I/O",
         ],
         "rule": "empty and singleton databases, repeated keys, brute-forced full 32-bit hash collisions, single-bucket chains "
                 "of 1..600 keys with absent same-bucket probes, record sizes around 2048/4096/8192-byte boundaries, random "
@@ -183,16 +185,19 @@ PROPS = {
     },
     "C18": {
         "manifest": {
-            "text": "Lean 4 theorems over a model of svcb.ParamList (FromText with its seven value marshallers, ToWire, ToText) and "
-                    "an independent RFC 9460 wire reader: keys_strictly_increasing (unconditional) and _wire, "
-                    "decode_recovers_declared_partial (the RFC reader recovers exactly the declared keys and values for valid "
-                    "declarations without dropped segments), mandatory_rejects_partial; the full-strength statements are kept as "
-                    "defs with proved negations from concrete witnesses (known findings). Correspondence: the real "
-                    "FromText/ToWire/ToText output-for-output (wire bytes, text, error class); miekg/dns unpack/repack of a full "
-                    "HTTPS RR as a second independent decoder; all key orders.",
-            "note": "Partial: text_wire_idempotent is oracle-checked only (its positive theorem is not proved; its negation for "
-                    "IPv4-mapped ipv6hint is); Go library calls (ParseIP, ParseUint, base64, Split, SliceStable) are Lean models "
-                    "validated on the generated grammar; values >= 2^16 bytes are excluded by hypothesis.",
+            "text": "Lean 4 theorems over a model of svcb.ParamList (FromText with its seven value marshallers, ToWire, ToText; "
+                    "after the repairs of empty-segment handling and alpn id lengths) and an independent RFC 9460 wire reader: "
+                    "keys_strictly_increasing and _wire; accepted_is_valid_declaration and decode_recovers_declared (every accepted "
+                    "text is a valid declaration over all its non-empty segments and the RFC reader recovers exactly it from the "
+                    "emitted bytes); mandatory_rejects (all segments); text_wire_idempotent_partial (print -> parse gives the same "
+                    "list for every accepted text without an IPv4-mapped ipv6hint, incl. proved IP.String/ParseIP, "
+                    "FormatUint/ParseUint, base64 round trips); text_wire_idempotent_full kept as def with proved negation (open "
+                    "finding C18-ipv6hint-mapped, pinned by the package's own test). Correspondence: the real FromText/ToWire/ToText "
+                    "output-for-output (wire bytes, text, error class); miekg/dns unpack/repack of a full HTTPS RR as a second "
+                    "independent decoder; all key orders; empty segments anywhere, alpn ids of length 0 / 256+ (must be rejected).",
+            "note": "Partial: Go library calls (ParseIP, ParseUint, base64, Split, SliceStable) are Lean models validated on the "
+                    "generated grammar; values >= 2^16 bytes are excluded by hypothesis (Fits); IPv4-mapped ipv6hints are excluded "
+                    "from generation (open finding, witness in corpus).",
         },
         "trusted": COMMON_TRUSTED + [
             "net.ParseIP / IP.String / strconv.ParseUint / base64 / bytes.Split / sort.SliceStable modelled in Lean, validated by correspondence",
@@ -200,8 +205,8 @@ PROPS = {
         ],
         "rule": "all 3-subsets of the seven keys in every order (thorough: all 7! orders twice) x random values over boundary "
                 "pools (ports 0/1/65535, 8 IPv4 / 17 IPv6 text forms, alpn ids 1..255 bytes, ech 1..70 bytes, quoting modes), "
-                "invalid mandatory lists, malformed stream; inputs of the recorded defect classes excluded; distinct = distinct "
-                "(op, output shape)",
+                "invalid mandatory lists, malformed stream, empty segments, empty / over-long alpn ids; IPv4-mapped ipv6hints "
+                "excluded (open finding); distinct = distinct (op, output shape)",
         "assumptions": ["parameter values shorter than 2^16 bytes"],
     },
     "C07": {
@@ -241,14 +246,20 @@ PROPS = {
                     "spec_referral); refinement serve_v1_refines_spec: on any store representing a WellFormed record list under v1 "
                     "keys (CDB, RocksDB v1), for every lower-case storable query name, every type (DS included), class, answer limit "
                     "and client location the handler model equals Spec.answer in all four sections; C02's serve_v2_eq_v1 carries it "
-                    "to v2 keys. Correspondence on every run: generated data files compiled by the real cdb/rdb compilers into CDB "
+                    "to v2 keys. Pipeline: convertLine_shaped (all 16 line types) and compile_representsAt (the store the model "
+                    "compiler builds from a file holds exactly the rows of the records the Spec side decodes from it), hence "
+                    "file_served_as_declared: for every data file the model compiles (CDB, RocksDB v1) and every query, the handler "
+                    "model answers Spec.answer of the file's declared zone; answer_perm_invariant / answer_viewSort_invariant / "
+                    "file_served_as_declared_file_order: the answer depends on the multiset of declared records only (sections up "
+                    "to permutation), so the file order may be used. Correspondence on every run: generated data files compiled by the real cdb/rdb compilers into CDB "
                     "(combined and per-family prefix sets), RocksDB v1 and v2, queried through ServeDNSWithRCODE; implementation = "
                     "model = Spec per query (sections as RR sets, address records relationally), plus pairwise agreement of the "
                     "four storage configurations.",
-            "note": "Partial: forced hypotheses SoaHasNs, NsParse, TargetsOK (additional-section targets lower-case and distinct); "
-                    "Spec.answer's invariance under the reader's tagged-rows-first order (viewSort) and 'the real codec's output "
-                    "Represents the file' are not proved (checked by the correspondence); typed-RR (un)packing by miekg is compared "
-                    "on the wire; files violating SoaHasNs get no Spec verdict.",
+            "note": "Partial: forced hypotheses (each with a kernel-checked counterexample) SoaHasNs, NsParse, TargetsOK "
+                    "(additional-section targets lower-case and distinct), LinesOK (a generic ':' line of type A/AAAA has at least 4 "
+                    "rdata bytes), TagOK (the client location is not one of the three 2-byte key markers), SoaDet for arbitrary "
+                    "permutations; the model codec is tied to the real one by the correspondence (and C09), not by a theorem; "
+                    "typed-RR (un)packing by miekg is compared on the wire; files violating SoaHasNs get no Spec verdict.",
         },
         "trusted": COMMON_TRUSTED + [
             "miekg/dns packing/unpacking of typed RRs and name compression (responses compared on the wire, rdata as re-packed bytes)",
@@ -353,7 +364,9 @@ PROPS = {
     "C13": {
         "manifest": {
             "text": "Lean 4: serve_v1_never_panics (for every store and every wire-valid query name the v1 query path never reaches "
-                    "a Go panic), the v2 counterpart under the key-format hypothesis, reply_shape. Correspondence: wire-valid "
+                    "a Go panic), serve_v2_never_panics / serve_v2_reply_or_none for every canonical v2 store and every query with "
+                    "labels of at most 63 bytes (both hypotheses forced: serve_v2_can_panic_on_malformed_store / _on_overlong_label), "
+                    "serve_v2_outcome_is_v1, reply_shape. Correspondence: wire-valid "
                     "messages (root, 120-label names, 63-byte labels, any type/class, EDNS versions 0/1/255, option lists, ECS "
                     "contents incl. family 0) passed through Pack/Unpack and then the real handler under recover, against "
                     "{empty database, root zone, root delegation, generated files} x four storage configurations: no panic, "
@@ -396,24 +409,27 @@ PROPS = {
         "prelude_ops": ["isprint"],
         "manifest": {
             "text": "Lean 4 theorems over a record-level model through which the validated line codec factors "
-                    "(convertLine_factors): parse_marshal (for well-formed records of the 15 line types Z % . & + = @ S C ^ ' : M 8 "
-                    "! the re-serialised text decodes to the same record), hence compile_marshal_parse and marshal_idempotent; "
+                    "(convertLine_factors): parse_marshal (for well-formed records of all 17 line types, B/H included, any serial "
+                    "incl. explicit 0, single-label FQDN servers, catch-all maps, literal '*' labels behind empty ones: the "
+                    "re-serialised text decodes to the same record), hence compile_marshal_parse and marshal_idempotent; "
                     "fields_resplit / quoted_field_has_no_separator (from C17); rangepoint_text_roundtrip; "
-                    "accumulator_line_compiles; the full-strength statements are kept as defs with proved negations from "
-                    "concrete witnesses (12 defect classes, known findings). Correspondence: real DecodeLn -> MarshalText -> "
-                    "DecodeLn+MarshalMap -> MarshalText on generated lines of all 17 types, and real preprocessing of whole "
-                    "files vs compile of the original (RocksDB codec).",
-            "note": "Partial: B/H (SVCB) lines are covered by correspondence only; the file-level preprocessing theorem is "
-                    "validated by correspondence and proved only for its per-line ingredients; hypotheses Plain (putdomtext "
-                    "leaves the quoted name unchanged) and IpOK (IP.String/ParseIP round trip: a validated library model).",
+                    "accumulator_line_compiles; preprocess_preserves_compile (an accepted file and its preprocessed form compile to "
+                    "the same list of records). Seven defects of the printers / preprocessor found by the model were repaired in "
+                    "/repo (the former negative witnesses are now positive examples). Correspondence: real DecodeLn -> MarshalText "
+                    "-> DecodeLn+MarshalMap -> MarshalText on generated lines of all 17 types, and real preprocessing of whole "
+                    "files vs compile of the original (RocksDB codec), with every formerly excluded class generated.",
+            "note": "Partial: WF assumes names without empty labels and no label whose quoted form reaches 256 bytes "
+                    "(text_normal_form_full_false: a 64-byte label of NULs, outside DNS's 63-byte limit), the net.IP and "
+                    "svcb.ParamList text round trips (C18) enter as hypotheses; general name normalisation (a.b. / .ns.) is covered "
+                    "by the computable check and the correspondence, not by a theorem.",
         },
         "trusted": COMMON_TRUSTED + [
             "net.IP.String / ParseIP round trip (hypothesis IpOK, brute-forced and checked by correspondence)",
         ],
         "rule": "3000 conv + 6000 norm + 250 prep cases per quick run (thorough 100k/150k/5k): lines of all 17 types with every "
                 "optional field independently present/absent/0, both separators, escapes, wildcard owners, locations, "
-                "IPv4/IPv6/mapped; inputs of the recorded defect classes kept out of the main stream; distinct = distinct (op, "
-                "output shape)",
+                "IPv4/IPv6/mapped, '.*.' names, empty/one-character/comment/blank-prefixed lines, explicit serial 0, '*.' "
+                "targets and maps, maps with 55-255 disjoint subnets; distinct = distinct (op, output shape)",
         "assumptions": ["well-formed records (WF predicate in Props/C09.lean)"],
     },
     "C05": {
